@@ -439,6 +439,65 @@ def run_container_histories(params, known):
     return dict(name=params['name'], evaluations=count, nontrivial_keys=sorted(keys), violations=violations, known=[], samples=[])
 
 
+def run_burst(params, known):
+    """Several bundles to be forwarded (or sent) reach the agent before its loop has run - the fragments an
+    upstream node made of one bundle arrive in one burst, say: two and three bundles of lengths below and above the
+    MTU, from the network, from a local application, or mixed.  Every one of them is handed to the convergence layer
+    within the MTU and its payload tiled exactly once."""
+    import itertools
+    violations = []
+    kinds = set()
+    count = 0
+    keys = set()
+
+    def viol(kind, detail, case):
+        if kind in kinds:
+            return
+        kinds.add(kind)
+        v = Violation(PROP, 'fragment', kind, dict(), '%r: %s' % (case, detail)).as_dict()
+        v['case'] = case
+        violations.append(v)
+    for (mtu, lengths, origins) in itertools.product((150, 330), ((40, 40), (400, 40), (40, 400), (400, 500), (40, 400, 40), (400, 400, 400)),
+                                                     ('forward', 'local', 'mixed')):
+        count += 1
+        case = dict(mtu=mtu, lengths=list(lengths), origin=origins)
+        world = BpWorld(dict(node_id=NODE, tx_routes=[('.*', 'dtn://next/', mtu)], rx_routes=[('^dtn://node/.*', 'deliver'), ('.*', 'forward')]))
+        sent_bundles = []
+        for (k, length) in enumerate(lengths):
+            origin = origins if origins != 'mixed' else ('forward', 'local')[k % 2]
+            bundle = make_bundle(length, 1, 'hop', 0, origin)
+            bundle['primary']['ts'] = (bundle['primary']['ts'][0], 50 + k)
+            sent_bundles.append((bundle, origin))
+            # (no loop turn in between)
+            if origin == 'local':
+                world.send(impl_container(bundle))
+            else:
+                world.receive(B.encode(bundle))
+        world.quiesce()
+        keys.add('%d/%r/%s' % (mtu, lengths, origins))
+        if world.escaped or world.api_errors:
+            esc = (world.escaped or world.api_errors)[-1]
+            viol('exception-escaped', '%s: %s' % (esc[0], esc[2] if world.escaped else esc[1]), case)
+            continue
+        covers = {50 + k: [0] * length for (k, length) in enumerate(lengths)}
+        for octets in world.sent():
+            if len(octets) > mtu:
+                viol('oversized-bundle-transmitted', '%d octets, MTU %d' % (len(octets), mtu), case)
+            dec = B.decode(octets)
+            if dec['primary']['flags'] & B.FLAG_ADMIN:
+                continue
+            seq = dec['primary']['ts'][1]
+            off = dec['primary'].get('frag_offset', 0) if dec['primary']['flags'] & B.FLAG_IS_FRAGMENT else 0
+            for i in range(off, off + len(B.payload(dec))):
+                if seq in covers and i < len(covers[seq]):
+                    covers[seq][i] += 1
+        for (seq, cover) in sorted(covers.items()):
+            if any(c != 1 for c in cover):
+                viol('fragments-do-not-tile-the-payload', 'bundle %d of the burst: octets covered 0 times: %d, more than once: %d'
+                     % (seq - 49, sum(1 for c in cover if c == 0), sum(1 for c in cover if c > 1)), case)
+    return dict(name=params['name'], evaluations=count, nontrivial_keys=sorted(keys), violations=violations, known=[], samples=[])
+
+
 def run_route_added(params, known):
     '''The transmit table grows while fragments wait to be sent (the adaptors add routes when a
     session comes up): a second route for the same destinations, with a smaller / larger / no MTU and
@@ -514,6 +573,7 @@ def scenarios(tier):
     out = []
     out.append(dict(name='container-histories', kind='enum', runner='run_container_histories', params=dict(name='container-histories'), weight=100))
     out.append(dict(name='route-added', kind='enum', runner='run_route_added', params=dict(name='route-added'), weight=200))
+    out.append(dict(name='burst', kind='enum', runner='run_burst', params=dict(name='burst'), weight=50))
     for (index, var) in enumerate(variants(tier)):
         (crc, ext, origin, flagname, bib, filt) = var
         npts = sum(1 for (length, spec) in grid(tier) if filt(length, spec))
